@@ -26,6 +26,7 @@ EXPLANATION = (
     "reconstruction beyond C14's clause."
     ' (R11, round 3) is_valid_solution() computes |flow - load| on Python numbers (fixed-width numpy scalars wrap around).'
     ' (R2, round 4) the flag / constraint pairing of the safety fixing (C05.R1) is checked here too: the consumers replace the product of an edge flagged `= 1` by the weight.'
+    ' (R3, hunt 4) w_max is not truncated in any model; (R11) the big-M of row 22a is summed on Python numbers.'
 )
 DECIDED = ["10d equality present, complete and exact in all flow encoders", "product linking exact for every non-ignored edge and layer",
            "requested numeric type of weights", "greedy route publishes what it computed and only when admissible"]
